@@ -15,6 +15,14 @@ TEXT = {
             "proved against the spec; any CRep representation (zero summaries or expanded zeros) has the same root. Other "
             "routes (decode, from_obj) tied by correspondence.",
             "Coq proof by induction on ty + CRep invariant; vm_compute correspondence", "5 (C01)"),
+    "C04": ("Theorems: on ANY contents tree representing a node list (CRep: any mixture of zero summaries / expanded "
+            "zeros) a write at position i represents the updated list, an expanding write at |ns| represents ns++[v], and "
+            "the root is always the merkleisation of the represented list (no stale root). View level: for lists of "
+            "composite elements every valid history of element assignments and appends succeeds and ends in a "
+            "representation of exactly the implied list, whose len / elements / root are the spec's; fresh values are "
+            "representations too. pop, packed lists, bitfields, vectors, containers, unions: correspondence on histories "
+            "(each step vs model and vs fresh value).",
+            "Coq proof (CRep invariant, induction on depth and on histories) + correspondence", "5 (C04)"),
     "C05": ("Theorems on the store-of-view-cells model (hooks as data): a write through a child view stores the new backing "
             "in the child and, through its hook, at the child's position in the parent; the parent then reads back exactly "
             "that backing (via the C07 read-back law); commands on unhooked views touch nothing else. One hook level "
@@ -56,6 +64,12 @@ TEXT = {
             "limit, index out of bounds, pop on empty, append to full, invalid selector) is rejected by the model. Tie: "
             "histories with ~40% invalid commands; model-free oracle 'raised => every held view unchanged'.",
             "Coq proof on the store model + correspondence", "5 (C14)"),
+    "C15": ("Theorems: indexing a contents tree that represents ns returns the i-th represented node for every i (CRep_get, "
+            "all depths, any zero summaries); len() / [i] of list views present the represented elements in order; == is "
+            "equality of hash-tree-roots; equal views have equal hashes. The three stack iterators are modelled literally "
+            "as machines and compared with indexing / slices / iteration / to_obj on lengths sweeping every subtree "
+            "boundary (correspondence + model-free agreement oracle); their invariant proof is not done.",
+            "Coq proof (CRep_get) + literal iterator model + correspondence", "5 (C15)"),
     "C17": ("Theorems (all H, src, trees, paths): a partial tree (subtrees replaced by bare summaries) has the same root; "
             "every read / non-expanding write / expanding write that succeeds on it succeeds on the complete tree with "
             "related results and equal roots (expanding writes under Hinj, relying on the repaired setter); every failure "
